@@ -8,8 +8,9 @@ import numpy as np
 from . import solverkit as K
 
 INF = float('inf')
-REDUCERS = {'sum': lambda a: float(np.sum(a)), 'max': lambda a: float(np.max(a)), 'mean': lambda a: float(np.mean(a))}
-MYSTIC_REDUCERS = {'sum': np.sum, 'max': np.max, 'mean': np.mean}
+REDUCERS = {'sum': lambda a: float(np.sum(a)), 'max': lambda a: float(np.max(a)), 'mean': lambda a: float(np.mean(a)),
+            'min': lambda a: float(np.min(a)), 'prod': lambda a: float(np.prod(a))}
+MYSTIC_REDUCERS = {'sum': np.sum, 'max': np.max, 'mean': np.mean, 'min': np.min, 'prod': np.prod}
 
 
 def feq(a, b, rel):
@@ -68,8 +69,9 @@ def gen_cfg(rng, focus, solvers=('nm', 'powell', 'de', 'de2')):
         cfg['pen'] = K.gen_penalty(rng, dim)
     if focus == 'c01' and rng.random() < 0.2:
         cfg['cost'] = ['array', [round(rng.uniform(-2, 2), 2) for _ in range(dim)]]
-        cfg['reducer'] = rng.choice(['sum', 'max', 'mean'])
-        cfg['reducer_arraylike'] = rng.random() < 0.7 or cfg['reducer'] == 'mean'
+        cfg['reducer'] = rng.choice(['sum', 'max', 'mean', 'min', 'prod'])
+        cfg['reducer_arraylike'] = rng.random() < 0.5 or cfg['reducer'] == 'mean'
+        if cfg['reducer'] == 'prod': cfg.pop('pen', None)      # (a penalty is added to the components before they are reduced: only reducers that commute with a shift are combined with one)
     # ---- channel: configuration through Set* methods, or through the keywords of the Step call at which it takes effect
     cfg['channel'] = rng.choice(['set', 'set', 'step_kw'])
     # ---- stop
@@ -167,7 +169,7 @@ class Run(object):
             else: s.SetPenalty(K.make_penalty(cfg['pen']))
         if cfg.get('reducer'):
             if cfg.get('reducer_arraylike', True): s.SetReducer(MYSTIC_REDUCERS[cfg['reducer']], arraylike=True)
-            else: s.SetReducer({'sum': lambda a, b: a + b, 'max': max, 'mean': None}.get(cfg['reducer']) or (lambda a, b: a + b), arraylike=False)
+            else: s.SetReducer({'sum': lambda a, b: a + b, 'max': max, 'min': min, 'prod': (lambda a, b: a * b), 'mean': None}.get(cfg['reducer']) or (lambda a, b: a + b), arraylike=False)
         if cfg.get('reducer') == 'mean' and not cfg.get('reducer_arraylike', True):
             self.red = REDUCERS['sum']
         if box and box['when'] == 0:
